@@ -91,7 +91,7 @@ PROPS = {
         "min": {"quick": {"c18.snapshots": 5000, "c18.transitions": 1000}},
         "rule": R("oracle over Status() snapshots at quiescent points (synctest.Wait), the recording Metrics (is-leader gauge, transition chain) and the store log"), "assumptions": SIM_ASSUME},
     "C19": {"level": "exploration", "trigger": ["c19.ended_checks"],
-        "batches": [sim("multiterm", 250, 4000), sim("benign", 100, 1500), sim("connection", 60, 1000), sim("lifecycle", 100, 1500), sim("stoppoints", 200, 1000), sim("yieldstop", 190, 570), sim("restartinflight", 72, 216), sim("holdrace", 350, 3500)],
+        "batches": [sim("multiterm", 250, 4000), sim("benign", 100, 1500), sim("connection", 60, 1000), sim("lifecycle", 100, 1500), sim("stoppoints", 200, 1000), sim("yieldstop", 190, 570), sim("restartinflight", 72, 216), sim("holdrace", 350, 3500), sim("lateregister", 24, 240)],
         "min": {"quick": {"c19.ended_checks": 100}},
         "rule": R("promotion callbacks that block on their context; oracle: Done() state of each term's context at quiescent points vs. the term's end"), "assumptions": SIM_ASSUME},
 
@@ -106,7 +106,7 @@ PROPS = {
         "rule": "full product lattice: H in {-1ns,0,1ns,1ms,1s,1h,1y} x TTL in {-1ns,0,1ns,3H-1ns,3H,3H+1ns,4y} x ValidationInterval in {-1ns,0,1ns,H-1ns,H,H+1ns} x DisconnectGracePeriod in {-1ns,0,1ns,2H-1ns,2H,2H+1ns} x MaxConsecutiveFailures in {-1,0,1} x Priority in {-1,0,1} x takeover x (Bucket,Group,InstanceID) in {empty, x[, space, unicode, 4KiB]}^3 (quick: 2 strings = 254016 configurations; thorough: 5 strings = 3969000, exhaustive) plus 20000 random configurations per batch; every configuration goes through leader.NewElection with a counting provider; oracle = independently written predicate (big-integer arithmetic), offending-field set, provider call counters; distinct = configurations",
         "assumptions": ["durations up to one year (4 years for TTL): the 3xH overflow region is outside the quantifier"]},
     "C17": {"level": "exploration", "trigger": ["c17.backoff_inputs", "c17.retry_scripts", "c17.breaker_scripts", "c17.rounds"],
-        "batches": [pure("c17backoff", 50, 1000), pure("c17retry", 100, 2000), pure("c17breaker", 100, 2000), sim("benign", 100, 2000), sim("c06", 100, 2000), sim("faulty", 60, 1000)],
+        "batches": [pure("c17backoff", 50, 1000), pure("c17retry", 100, 2000), pure("c17breaker", 100, 2000), sim("benign", 100, 2000), sim("c06", 100, 2000), sim("faulty", 60, 1000), sim("lateanswer", 36, 360)],
         "min": {"quick": {"c17.backoff_inputs": 50000, "c17.retry_scripts": 10000, "c17.breaker_scripts": 10000, "c17.rounds": 500}},
         "rule": "backoff: 2000 configurations x attempt numbers in {0..70,100,1023,1024,1e4,1e6,MaxInt32,MaxInt} per batch, 10 draws each, against min(Max, Initial*Mult^n) in big-float arithmetic; retry: 200 outcome scripts over {ok,transient,permanent} x MaxAttempts 0..6 x cancellation times per batch inside a synctest bubble (exact virtual invocation times); breaker: 200 scripts of (dt on the cooldown lattice, outcome) per batch against a reference automaton; acquisition rounds: every round observed in the SIM traces (first attempt 10-100 ms after the round start, at most 4 attempts, backoff within 10%); distinct = distinct inputs/scripts/traces",
         "assumptions": ["domain committed in DESIGN §9 C17 (Multiplier >= 1, Jitter in [0,1], non-negative durations)"]},
